@@ -38,7 +38,8 @@ pub struct RHistory {
     /// bit 0: clone fragment, bit 1: serde fragment
     pub fragsel: u8,
     /// 0: whole menu; 1: small alignments only, plus over-aligned zero-size types (so that a
-    /// zero-size datum is the most aligned of the definition)
+    /// zero-size datum is the most aligned of the definition); 2: wide (the first variant has
+    /// 17..=22 fields)
     #[serde(default)]
     pub profile: u8,
 }
@@ -50,11 +51,12 @@ pub const NAME_POOL: [&str; 12] =
     ["alpha", "beta", "gamma", "delta", "eps", "zeta", "count2", "is_ok", "the_value", "x_1", "kappa_mu", "n0"];
 
 /// Weighted menu: tokens and owned types are over-represented.
-pub const WEIGHTED: [usize; 56] = [
+pub const WEIGHTED: [usize; 64] = [
     0, 1, 2, 3, 4, 5, 6, 7, 8, 9, 10, 11, 12, 13, 14, 15, 16, 17, 18, 19, 20, 21, 22, 23, 24, 25, 26, 27, 28, 29, 30, // once each
     22, 23, 24, 25, 26, 27, 28, 22, 24, 26, 28, // tokens
     17, 18, 19, 20, 21, 17, // owned
     12, 13, 14, 5, 8, 2, 3, 0, // zero-size, odd sizes, integers
+    31, 32, 33, 31, 32, 31, 32, 33, // large token, vector of tokens, large plain data
 ];
 
 pub fn add_req() -> impl Strategy<Value = RReq> {
@@ -92,10 +94,24 @@ pub fn rhistory() -> impl Strategy<Value = RHistory> {
         prop_oneof![1 => Just(vec![]).boxed(), 9 => prop::collection::vec(block(false), 1..6).boxed()],
         strat_strategy(),
         0u8..4,
-        prop_oneof![5 => Just(0u8), 1 => Just(1u8)],
+        prop_oneof![10 => Just(0u8), 2 => Just(1u8), 1 => Just(2u8)],
     )
         .prop_map(|(first, rest, final_strat, fragsel, profile)| {
             let mut reqs = first;
+            if profile == 2 {
+                // widen the first variant: replay its additions until there are 17..=22 of them
+                let adds: Vec<RReq> = reqs.iter().filter(|r| matches!(r, RReq::Add { .. })).cloned().collect();
+                let close = reqs.pop();
+                let want = 17 + adds.len() % 6;
+                let mut k = 0usize;
+                while !adds.is_empty() && reqs.iter().filter(|r| matches!(r, RReq::Add { .. })).count() < want {
+                    if let RReq::Add { menu, uninit, .. } = &adds[k % adds.len()] {
+                        reqs.push(RReq::Add { menu: menu.wrapping_mul(31).wrapping_add(k as u16 * 977), uninit: *uninit, name: None });
+                    }
+                    k += 1;
+                }
+                reqs.extend(close);
+            }
             for b in rest {
                 reqs.extend(b);
             }
@@ -227,7 +243,7 @@ pub fn build_ext(h: &RHistory, ext: &Ext) -> Built {
     for req in &h.reqs {
         match req {
             RReq::Add { menu: m, uninit, name } => {
-                if b.get_current_data().count() >= MAX_FIELDS {
+                if b.get_current_data().count() >= if h.profile == 2 { 24 } else { MAX_FIELDS } {
                     continue;
                 }
                 let mut idx = if h.profile == 1 { LOW_ALIGN[pick(*m, LOW_ALIGN.len())] } else { WEIGHTED[pick(*m, WEIGHTED.len())] };
@@ -475,7 +491,7 @@ impl<const CAP: usize> vdrive::RecGlue for CappedRecord{v}<CAP> {{
 {get_arms}
         }}
     }}
-    fn tok(&self, datum: usize) -> Option<u64> {{
+    fn toks(&self, datum: usize) -> Vec<u64> {{
         match datum {{
 {tok_arms}
         }}
@@ -530,7 +546,7 @@ impl<const CAP: usize> vdrive::VecGlue for VecOf{v}<CAP> {{
 }}"#,
             v = v,
             get_arms = arms(&|x| format!("vtypes::FieldType::digest(self.{}())", x.name), &nodatum),
-            tok_arms = arms(&|x| format!("vtypes::FieldType::tok_id(self.{}())", x.name), "None"),
+            tok_arms = arms(&|x| format!("vtypes::FieldType::tok_ids(self.{}())", x.name), "Vec::new()"),
             set_arms = arms(&|x| format!("{{ *self.{}_mut() = vtypes::FieldType::make(seed); }}", x.name), &nodatum),
             mut_arms = arms(&|x| format!("vtypes::FieldType::mutate(self.{}_mut(), seed)", x.name), &nodatum),
             unpack_pat = unpack_pat,
